@@ -116,7 +116,7 @@ def gen_problem(ctx, rng, hermitian=True, max_dim=60, cplx=None):
     psi0 = npc.Array.from_ndarray(v0, [leg], qtotal=list(sec), labels=['x'], cutoff=0.)
     # breakdown detection in the solvers uses an absolute `cutoff` (default 100 eps): keep |A| small enough that the
     # rounding noise of an exhausted Krylov space (~eps*|A|*sqrt(n)) stays below it
-    if np.linalg.norm(d, 2) > 8:
+    if not (np.linalg.norm(d, 2) <= 8):
         return None
     return {'A': A, 'd': d, 'leg': leg, 'mod': mod, 'idx': idx, 'v0': v0, 'psi0': psi0, 'sector': sec, 'struct': struct, 'kind': kind,
             'cplx': bool(cplx), 'n': n}
@@ -174,13 +174,13 @@ def check_ground_state(ctx, name, p, opts, E0, psi, N, case, H_dense=None, lam=N
     d = p['d'] if H_dense is None else H_dense
     v = psi.to_ndarray()
     scale = max(1.0, float(np.linalg.norm(d)))
-    if abs(np.linalg.norm(v) - 1) > 1e-8:
+    if not (abs(np.linalg.norm(v) - 1) <= 1e-8):
         ctx.violation(name + ':not-normalised' + tag, '|psi| = %r' % np.linalg.norm(v), case)
         return
-    if np.linalg.norm(np.delete(v, idx)) > 1e-8:
+    if not (np.linalg.norm(np.delete(v, idx)) <= 1e-8):
         ctx.violation(name + ':leaves-charge-sector' + tag, '', case)
     rq = np.real(np.vdot(v, d @ v))
-    if abs(rq - E0) > 1e-7 * scale:
+    if not (abs(rq - E0) <= 1e-7 * scale):
         ctx.violation(name + ':E0-is-not-rayleigh-quotient' + tag, 'E0 %r <v|A|v> %r (N=%d)' % (E0, rq, N), case)
     if lam is None:
         lam = np.linalg.eigvalsh(d[np.ix_(idx, idx)])
@@ -222,7 +222,7 @@ def do_lanczos(ctx, rng):
     if N >= kdim and opts['N_max'] >= kdim and opts.get('reortho', False):
         # ground state within the Krylov space of v0
         lam_k = _krylov_spectrum(p)
-        if abs(E0 - lam_k[0]) > 1e-7 * scale:
+        if not (abs(E0 - lam_k[0]) <= 1e-7 * scale):
             ctx.violation('lanczos:not-exact-at-full-krylov-dimension', 'E0 %r exact %r (N=%d, krylov dim %d)' %
                           (E0, lam_k[0], N, kdim), case)
     return p, opts, 'lanczos'
@@ -282,10 +282,10 @@ def do_lanczos_ncache(ctx, rng):
         if ref is None:
             ref = (E0, v, N)
         else:
-            if N != ref[2] or abs(E0 - ref[0]) > 1e-9 * max(1, abs(ref[0])):
+            if N != ref[2] or not (abs(E0 - ref[0]) <= 1e-9 * max(1, abs(ref[0]))):
                 ctx.violation('lanczos:energy-depends-on-N_cache', 'N_cache=%d: E0 %r N %d vs %r N %d' % (nc, E0, N, ref[0], ref[2]),
                               dict(case, N_cache=nc))
-            elif abs(abs(np.vdot(v, ref[1])) - 1) > (1e-6 if opts['reortho'] else 1e-4):
+            elif not (abs(abs(np.vdot(v, ref[1])) - 1) <= (1e-6 if opts['reortho'] else 1e-4)):
                 ctx.violation('lanczos:vector-depends-on-N_cache', 'N_cache=%d: overlap with full-cache result %r' %
                               (nc, abs(np.vdot(v, ref[1]))), dict(case, N_cache=nc))
     ctx.count('lanczos.ncache_sweeps')
@@ -317,7 +317,7 @@ def do_lanczos_reuse(ctx, rng):
         res.append(E0)
         check_ground_state(ctx, 'lanczos-reuse', p, opts, E0, psi, N, case,
                            tag=':run%d%s' % (min(run, 1) + 1, ':OrthogonalNpcLinearOperator' if use_ortho else ''))
-    if max(abs(r - res[0]) for r in res) > 1e-7 * max(1, abs(res[0])):
+    if not (max(abs(r - res[0]) for r in res) <= 1e-7 * max(1, abs(res[0]))):
         ctx.violation('lanczos-reuse:E_shift-stacks-on-reused-operator%s' % (':OrthogonalNpcLinearOperator' if use_ortho else ''),
                       'energies of consecutive runs on the same operator object: %r' % res, case)
     ctx.count('lanczos.reuse_histories')
@@ -358,7 +358,7 @@ def do_lanczos_ortho(ctx, rng):
     ctx.count('ortho.runs')
     v = psi.to_ndarray()
     for j, o in enumerate(ov_before):
-        if abs(np.vdot(o, v)) > 1e-7:
+        if not (abs(np.vdot(o, v)) <= 1e-7):
             ctx.violation('lanczos-ortho:result-not-orthogonal', 'overlap with ortho_vec %d: %r' % (j, abs(np.vdot(o, v))), case)
     if any(np.linalg.norm(o.to_ndarray() - b) > 1e-10 for o, b in zip(ovs, ov_before)):
         ctx.violation('lanczos-ortho:mutates-ortho_vecs', '', case)
@@ -367,7 +367,7 @@ def do_lanczos_ortho(ctx, rng):
     if E0 < lam[k] - 1e-7 * scale:
         ctx.violation('lanczos-ortho:below-excited-eigenvalue', 'E0 %r lambda_%d %r' % (E0, k, lam[k]), case)
     rq = np.real(np.vdot(v, p['d'] @ v))
-    if abs(rq - E0) > 1e-7 * scale:
+    if not (abs(rq - E0) <= 1e-7 * scale):
         ctx.violation('lanczos-ortho:E0-is-not-rayleigh-quotient', 'E0 %r <v|A|v> %r' % (E0, rq), case)
     return p, opts, 'lanczos_ortho'
 
@@ -401,11 +401,11 @@ def do_evolution(ctx, rng):
     v = psi.to_ndarray()
     err = np.linalg.norm(v - ref)
     tol = 1e-7 * max(1.0, np.linalg.norm(ref)) if opts['N_max'] >= dim + 1 else 1e-5 * max(1.0, np.linalg.norm(ref))
-    if err > tol:
+    if not (err <= tol):
         kind = 'phase-or-norm' if abs(abs(np.vdot(v, ref)) - np.linalg.norm(v) * np.linalg.norm(ref)) < 1e-6 * max(1, np.linalg.norm(ref))**2 else 'direction'
         ctx.violation('lanczos-evolution:wrong-%s:normalize=%s' % (kind, bool(do_norm)),
                       '|result - expm(delta A) v0| = %g (delta=%r, N=%d, dim=%d)' % (err, delta, N, dim), case)
-    if np.real(delta) == 0 and abs(np.linalg.norm(v) - (1.0 if do_norm else np.linalg.norm(p['v0']))) > 1e-7 * max(1, np.linalg.norm(p['v0'])):
+    if np.real(delta) == 0 and not (abs(np.linalg.norm(v) - (1.0 if do_norm else np.linalg.norm(p['v0']))) <= 1e-7 * max(1, np.linalg.norm(p['v0']))):
         ctx.violation('lanczos-evolution:norm-not-preserved', '|psi| %r' % np.linalg.norm(v), case)
     # the same solver object again with another step (run(delta) takes the step as argument): independent of the first call
     if rng.random() < 0.5 and err <= tol:
@@ -423,7 +423,7 @@ def do_evolution(ctx, rng):
         if do_norm2:
             ref2 = ref2 / np.linalg.norm(ref2)
         err2 = np.linalg.norm(psi2.to_ndarray() - ref2)
-        if err2 > 10 * tol:
+        if not (err2 <= 10 * tol):
             ctx.violation('lanczos-evolution-second-run:wrong:reortho=%s' % opts['reortho'],
                           'second run() of one LanczosEvolution object: |result - expm(delta A) v0| = %g (N=%d, first run N=%d, N_cache %r)' %
                           (err2, N2, N, opts.get('N_cache')), case)
@@ -463,9 +463,9 @@ def do_arnoldi(ctx, rng):
     for j, (E, psi) in enumerate(zip(np.atleast_1d(Es), psis)):
         v = psi.to_ndarray()
         res = np.linalg.norm(p['d'] @ v - E * v)
-        if abs(np.linalg.norm(v) - 1) > 1e-7:
+        if not (abs(np.linalg.norm(v) - 1) <= 1e-7):
             ctx.violation('arnoldi:not-normalised', '', case)
-        elif res > 1e-3 * scale:
+        elif not (res <= 1e-3 * scale):
             ctx.violation('arnoldi:ritz-pair-residual', 'pair %d: |Av - Ev| = %g (N=%d dim=%d)' % (j, res, N, dim), case)
             break
     # ordering according to `which` (keys computed on the shifted operator, as documented for E_shift)
@@ -515,7 +515,7 @@ def do_arnoldi_evolution(ctx, rng):
     if normalize:
         ref = ref / np.linalg.norm(ref)
     err = np.linalg.norm(psi.to_ndarray() - ref)
-    if err > 1e-6 * max(1.0, np.linalg.norm(ref)):
+    if not (err <= 1e-6 * max(1.0, np.linalg.norm(ref))):
         ctx.violation('arnoldi-evolution:wrong:normalize=%s' % normalize, '|result - expm(delta A) v0| = %g (delta=%r N=%d)' %
                       (err, delta, N), case)
     return p, opts, 'arnoldi_evolution'
@@ -533,10 +533,18 @@ def do_gmres(ctx, rng):
     d[np.ix_(idx, idx)] += np.eye(len(idx)) * (3 + len(idx))
     A = npc.Array.from_ndarray(d, [p['leg'], p['leg'].conj()], labels=['x', 'x*'], cutoff=0.)
     p = dict(p, d=d, A=A)
-    b = p['psi0']
-    x0 = b.zeros_like() if rng.random() < 0.5 else b * 0.5
-    opts = {'N_min': 1, 'N_max': int(rng.choice([3, 8, len(idx) + 2])), 'restart': int(rng.choice([1, 3, 10])), 'res': float(rng.choice([1e-8, 1e-3]))}
+    # the residual is relative to |b|: right-hand sides of any scale
+    scale = float(rng.choice([1.0, 1.0, 1e-9, 1e-5, 1e4, 1e-12]))
+    b = p['psi0'] * scale
+    r = rng.random()
+    x0 = b.zeros_like() if r < 0.4 else (b * 0.5 if r < 0.7 else b * (1.0 / (3 + len(idx))))
+    opts = {'N_min': int(rng.choice([0, 1, 1, 5])), 'N_max': int(rng.choice([3, 8, len(idx) + 2])), 'restart': int(rng.choice([1, 3, 10])),
+            'res': float(rng.choice([1e-8, 1e-3]))}
+    if rng.random() < 0.2:
+        opts = {}  # all defaults
     case = describe(p, opts)
+    case['b_scale'] = scale
+    ctx.count('gmres.small_rhs' if scale < 1e-6 else 'gmres.normal_rhs')
     try:
         x, res, errs, iters = GMRES(RecOp(A), x0, b, dict(opts)).run()
     except Exception as e:
@@ -545,7 +553,10 @@ def do_gmres(ctx, rng):
     ctx.count('gmres.runs')
     xv, bv = x.to_ndarray(), b.to_ndarray()
     true_res = np.linalg.norm(d @ xv - bv) / np.linalg.norm(bv)
-    if abs(true_res - res) > 1e-6 * max(1.0, true_res) + 1e-9:
+    if not (np.all(np.isfinite(xv)) and np.isfinite(res)):
+        ctx.violation('gmres:returns-NaN:dim=%s' % ('1' if len(idx) == 1 else '>1'), 'reported %r, x finite: %s (sector dimension %d)' % (res, bool(np.all(np.isfinite(xv))), len(idx)), case)
+        return p, opts, 'gmres'
+    if not (abs(true_res - res) <= 1e-6 * max(1.0, true_res) + 1e-9):
         ctx.violation('gmres:reported-residual-wrong', 'reported %r true %r' % (res, true_res), case)
     return p, opts, 'gmres'
 
@@ -580,7 +591,7 @@ def do_gram_schmidt(ctx, rng):
     well_posed = rank0 == nonzero  # the non-zero input vectors are linearly independent
     if len(res) and well_posed:
         G = M.conj() @ M.T
-        if np.linalg.norm(G - np.eye(len(res))) > 1e-8:
+        if not (np.linalg.norm(G - np.eye(len(res))) <= 1e-8):
             ctx.violation('gram_schmidt:not-orthonormal', '|G-1| = %g' % np.linalg.norm(G - np.eye(len(res))), case)
     rank = np.linalg.matrix_rank(np.array(vecs), tol=1e-8)
     if (well_posed and len(res) != rank) or len(res) < rank or len(res) > len(vecs):
@@ -602,14 +613,14 @@ def do_flat(ctx, rng):
         # round trip npc <-> flat
         fv = F.npc_to_flat(p['psi0'])
         back = F.flat_to_npc(fv).to_ndarray()
-        if np.linalg.norm(back - p['v0']) > 1e-12:
+        if not (np.linalg.norm(back - p['v0']) <= 1e-12):
             ctx.violation('flat:roundtrip', '', case)
         # matvec against the dense sector block
         x = rng.standard_normal(F.shape[1]).astype(F.dtype)
         y = F.matvec(x)
         xn = F.flat_to_npc(x).to_ndarray()
         yn = F.flat_to_npc(y).to_ndarray()
-        if np.linalg.norm(yn - p['d'] @ xn) > 1e-9 * max(1.0, np.linalg.norm(p['d'])):
+        if not (np.linalg.norm(yn - p['d'] @ xn) <= 1e-9 * max(1.0, np.linalg.norm(p['d']))):
             ctx.violation('flat:matvec', '', case)
     except Exception as e:
         if opts['compact_flat'] and 'works only for blocked' in str(e):
@@ -650,7 +661,7 @@ def do_wrappers(ctx, rng):
             ref = P @ d @ P
         x = p['psi0']
         y = W.matvec(x).to_ndarray()
-        if np.linalg.norm(y - ref @ p['v0']) > 1e-9 * max(1.0, np.linalg.norm(ref)) * max(1.0, np.linalg.norm(p['v0'])):
+        if not (np.linalg.norm(y - ref @ p['v0']) <= 1e-9 * max(1.0, np.linalg.norm(ref)) * max(1.0, np.linalg.norm(p['v0']))):
             ctx.violation('wrapper.%s:matvec' % kind, '', case)
     except Exception as e:
         ctx.violation('wrapper.%s:raises-%s' % (kind, type(e).__name__), traceback.format_exc()[-600:], case)
